@@ -86,25 +86,26 @@ type sessState struct {
 	endedBefore   bool
 	pendingFollow []string // keys of a call whose context ended: read them on every path next
 	followAll     bool
-	log       []string
+	log           []string
 }
 
 type hist struct {
-	id      int
-	backend string
-	seed    int64
-	u       *uni.Universe
-	d       *driver
-	rd      []*uni.ClientStore
-	rng     *rand.Rand
-	keys    []string
-	points  []string // split / bound candidates
-	obs     []*obs
-	sess    map[int]*sessState
-	r       *vrep.Report
-	topo    struct{ split, merge, move, clock, finish atomic.Int64 }
-	gates   gateState
-	aborted bool
+	id        int
+	backend   string
+	seed      int64
+	u         *uni.Universe
+	d         *driver
+	rd        []*uni.ClientStore
+	rng       *rand.Rand
+	keys      []string
+	points    []string // split / bound candidates
+	obs       []*obs
+	sess      map[int]*sessState
+	r         *vrep.Report
+	topo      struct{ split, merge, move, clock, finish atomic.Int64 }
+	gates     gateState
+	rewriters []*rewriteClient
+	aborted   bool
 }
 
 func (h *hist) lockView() map[string]*lockInfo {
@@ -1151,5 +1152,13 @@ func (h *hist) judgeScan(o *obs, truth *uni.Truth) {
 		g := o.got[gi]
 		h.violate(o, truth, sig("phantom-key-"+h.shape(truth, g.K, o.ts, g.V, h.expect(truth, g.K, o.ts))),
 			fmt.Sprintf("scan@%d returned %q = %.40q which is not visible at that ts", o.ts, g.K, g.V), extra)
+	}
+}
+
+func (h *hist) countRewrites() {
+	for _, w := range h.rewriters {
+		h.r.Count("response_level_lock_error:batchget", int(w.batch.Load()))
+		h.r.Count("response_level_lock_error:batchget-with-several-keys", int(w.multi.Load()))
+		h.r.Count("response_level_lock_error:scan", int(w.scan.Load()))
 	}
 }
